@@ -496,11 +496,6 @@ fn format(opt: opt::Opt) -> Result<i32> {
                     let path = entry.path().to_owned(); // TODO: stop to_owned?
                     let opt = opt.clone();
 
-                    if seen_files.contains(&path) {
-                        continue;
-                    }
-                    seen_files.insert(path.clone());
-
                     if path.is_file() {
                         // If the user didn't provide a glob pattern, we should match against our default one
                         if use_default_glob && should_respect_ignores(opt.as_ref(), path.as_path())
@@ -525,6 +520,13 @@ fn format(opt: opt::Opt) -> Result<i32> {
                             && should_respect_ignores(opt.as_ref(), &path)
                             && path_is_stylua_ignored(&path, opt.search_parent_directories)?
                         {
+                            continue;
+                        }
+
+                        // The same file can be reached under several spellings (`.` and `a.lua`):
+                        // only the files actually handed out are remembered, by canonical path
+                        let canonical = path.canonicalize().unwrap_or_else(|_| path.clone());
+                        if !seen_files.insert(canonical) {
                             continue;
                         }
 
